@@ -123,6 +123,20 @@ fn run_to_image(hist: &[Op], cfg: &Cfg) -> Option<Seed> {
     })
 }
 
+/// One image with a 12 MiB entry as the last record of the newest chunk (after a
+/// few small flushed records): limits on the size of a tail that recovery cuts,
+/// or scans, show only at this scale.
+pub fn big_record_seed() -> Option<Seed> {
+    let hist = vec![
+        Op::Vote((1, 1)),
+        Op::Append(vec![((1, 0), alphabet::payload((1, 0), 0))]),
+        Op::Append(vec![((1, 1), alphabet::payload((1, 1), 0))]),
+        Op::Flush,
+        Op::Append(vec![((1, 2), alphabet::payload((1, 2), 6))]),
+    ];
+    run_to_image(&hist, &Cfg::default())
+}
+
 /// Deterministic seed corpus: histories over the core alphabet up to `depth`
 /// under rotation-forcing limits, one representative (smallest image) per
 /// layout signature, at most `n`.
@@ -596,8 +610,35 @@ pub fn run_c10(rep: &Reporter, thorough: bool) -> Value {
             });
         }
     });
+    // MiB scale (a handful of cases, sequential: each moves tens of MiB):
+    // zero tails above 4 and 16 MiB at the last record boundary, and a 12 MiB last
+    // record cut 64 KiB in, just above 8 MiB in, and 5 bytes before its end
+    let mut mib_cases = 0u64;
+    for s in seeds.iter().take(2) {
+        let bd = s.files.last().unwrap().1.len();
+        for zl in [(4usize << 20) + 1, (16 << 20) + 5] {
+            check_tail(rep, s, &TailDamage::Zeros { boundary: bd, len: zl }, true, &st);
+            mib_cases += 1;
+        }
+    }
+    if let Some(big) = big_record_seed() {
+        let len = big.files.last().unwrap().1.len();
+        let rec_len = *big.chunks.last().unwrap().lens.last().unwrap() as usize;
+        let start = len - rec_len;
+        for cut in [start + 65536, start + (8 << 20) + 1, len - 5, len] {
+            for t in [true, false] {
+                check_tail(rep, &big, &TailDamage::Cut(cut), t, &st);
+                mib_cases += 1;
+            }
+        }
+        check_tail(rep, &big, &TailDamage::Zeros { boundary: len, len: (4 << 20) + 4097 }, true, &st);
+        mib_cases += 1;
+    } else {
+        rep.report(Violation { prop: rep.prop.clone(), key: "big-record-seed-failed".into(), what: "a store with a 12 MiB entry could not be written, flushed and closed to a model-conformant image".into(), replay: json!({"engine":"imagex-tail","seed":"big"}) });
+    }
     let distinct = st.distinct.lock().unwrap().len() as u64;
     json!({
+        "mib_scale_cases": mib_cases,
         "states": distinct.max(1),
         "transitions": st.opens.load(Ordering::Relaxed).max(1),
         "traces_validated_against_impl": st.opens.load(Ordering::Relaxed),
@@ -889,6 +930,35 @@ pub fn run_c09(rep: &Reporter, thorough: bool) -> Value {
             });
         }
     });
+    // a damaged record in front of a long zero tail (a crash on a file system that
+    // persisted the size but not the data): the zeros must not hide the damage
+    let mut flips_before_zero_tail = 0u64;
+    for s in seeds.iter().take(2) {
+        let newest = s.files.len() - 1;
+        let len = s.files[newest].1.len();
+        let rec_len = *s.chunks[newest].lens.last().unwrap() as usize;
+        for pos in (len - rec_len)..len {
+            let mut files = s.files.clone();
+            files[newest].1[pos] ^= 1;
+            files[newest].1.extend(std::iter::repeat(0u8).take((4 << 20) + 1));
+            st.opens.fetch_add(1, Ordering::Relaxed);
+            flips_before_zero_tail += 1;
+            let (run, _) = open_image(&files, &s.cfg, false);
+            let torn_like = looks_like_torn_tail(s, newest, pos, &files[newest].1);
+            match &run.opened {
+                Opened::Err(_) => st.outcome("refused"),
+                Opened::Panic(m) => rep.report(mut_vio(rep, "open-panics-on-corruption", format!("open panicked: {} (the flipped record is followed by 4 MiB + 1 zeros)", m), s, newest, pos, files[newest].1[pos], None)),
+                Opened::Ok { state, entries } => {
+                    if *state == s.model.st && entries.as_ref().ok() == Some(&s.model.all()) {
+                        st.outcome("ok-unchanged");
+                    } else {
+                        let key = if torn_like { "F10a:corruption-indistinguishable-from-torn-tail-silently-truncated" } else { "corruption-before-long-zero-tail-accepted" };
+                        rep.report(mut_vio(rep, key, format!("open succeeded with state {:?} entries {:?}; written: {:?} {:?} (the flipped record is followed by 4 MiB + 1 zeros)", state, entries, s.model.st, s.model.all()), s, newest, pos, files[newest].1[pos], None));
+                    }
+                }
+            }
+        }
+    }
     let mut missing = 0;
     let mut live = 0;
     let sidx = AtomicUsize::new(0);
@@ -918,6 +988,7 @@ pub fn run_c09(rep: &Reporter, thorough: bool) -> Value {
         "seed_images": seeds.len(),
         "seed_layouts": seeds.iter().map(|s| s.sig.clone()).collect::<Vec<_>>(),
         "single_byte_mutations_opened": work.len(),
+        "flips_in_front_of_a_4MiB_zero_tail": flips_before_zero_tail,
         "of_which_opened_under_small_read_buffers": work.iter().filter(|w| w.4.is_some()).count(),
         "small_read_buffer_sizes": small_bufs,
         "middle_chunk_removals_opened": missing,
